@@ -377,10 +377,10 @@ def build(vf, srcs):
             pub closed spec fn sp_has_run(&self) -> bool { self.has_run }
             pub closed spec fn sp_data(&self) -> Seq<u8> { self.data@ }''')
     sp = FnSpec(); sp.ret = 'r'; sp.body_props = {'C12', 'C09'}
-    sp.ensures = [('builder.new.wf', {'C12', 'C09'}, 'r.wf() && !r.sp_has_run()')]
+    sp.ensures = [('builder.new.wf', {'C12', 'C09', 'C01'}, 'r.wf() && !r.sp_has_run()')]
     vgen.emit_fn(vf, exp, base + ['impl:MessageBuilder', 'new'], sp, label='MessageBuilder::new', indent='            ', keep_pub=True)
     sp = FnSpec(); sp.body_props = {'C12', 'C09'}
-    sp.ensures = [('builder.clear_data.zeroes_all_but_preamble', {'C12'},
+    sp.ensures = [('builder.clear_data.zeroes_all_but_preamble', {'C12', 'C09', 'C01'},
                    'final(self).sp_data()[0] == old(self).sp_data()[0] && (forall|i: int| 1 <= i < 1029 ==> final(self).sp_data()[i] == 0u8) && final(self).sp_has_run() == old(self).sp_has_run()')]
     sp.loops[0] = '''                invariant 1 <= verif_k0 <= 1029, self.data[0] == old(self).data[0], self.has_run == old(self).has_run,
                     forall|i: int| 1 <= i < verif_k0 ==> self.data[i] == 0u8,
@@ -394,7 +394,8 @@ def build(vf, srcs):
                    'RX expansion of unreachable!() folded back (Verus proves it unreachable)')]
     sp.requires = [('builder.build.pre_wf', {'C12'}, 'old(self).wf()')]
     sp.ensures = [
-        ('builder.build.keeps_wf', {'C12'}, 'final(self).wf() && final(self).sp_has_run()'),
+        # the frame postcondition below holds under `wf`; it is a property of *every* call only because wf is re-established on every exit path
+        ('builder.build.keeps_wf', {'C12', 'C09', 'C01'}, 'final(self).wf() && final(self).sp_has_run()'),
         ('builder.build.no_wire_form_refused', {'C09'}, 'number_spec(message) is None ==> res is Err && res->Err_0 is EncodingNotSupported'),
         ('builder.build.frame_is_function_of_message', {'C09', 'C12', 'C01'},
          'res is Ok ==> number_spec(message) is Some && body_enc(message) is Some && crate::frame_post(res->Ok_0@, bits_of_int(number_spec(message)->Some_0 as int, 12) + body_enc(message)->Some_0)'),
